@@ -88,14 +88,20 @@ fn main() {
         }
         "C09" => c09::run(&cfg, &mut out),
         "C13" => c13::run(&cfg, &mut out),
-        "C17" => c17::run(&cfg, &mut out),
+        "C17" => {
+            c17::run(&cfg, &mut out);
+            c17::run_concurrent(&cfg, &mut out)
+        }
         "C20" => c20::run(&cfg, &mut out),
         "C12" => c12::run(&cfg, &mut out),
         "C03" => c03::run(&cfg, &mut out),
         "C14" => c14::run(&cfg, &mut out),
         "C05" => c05::run(&cfg, &mut out),
         "C16" => c16::run(&cfg, &mut out),
-        "C19" => c19::run(&cfg, &mut out),
+        "C19" => {
+            c19::run(&cfg, &mut out);
+            c19::run_concurrent(&cfg, &mut out)
+        }
         "C18" => c18::run(&cfg, &mut out),
         "C01" => c01::run(&cfg, &mut out),
         "C04" => c04::run(&cfg, &mut out),
